@@ -703,6 +703,9 @@ func addHostile(r *simkit.RNG, p *Pkg, i, np int, rootRun bool) {
 		// while it is being examined, dangling once the directory has its final name
 		{Path: "h-tmp-rel", Kind: "link", Target: "../@TMPBASE@/main.tf"},
 		{Path: "h-tmp-abs", Kind: "link", Target: "@TMPABS@/main.tf"},
+		// the same, reached through a valid link to the package's own root, so that the text of
+		// the target, read from the link's position, never seems to leave the package
+		{Path: "hd/h-tmp-via", Kind: "link", Target: "h-top/../@TMPBASE@/main.tf"},
 	}
 	n := r.Range(1, 3)
 	if r.Chance(1, 3) {
@@ -731,7 +734,7 @@ func addHostile(r *simkit.RNG, p *Pkg, i, np int, rootRun bool) {
 		if strings.HasPrefix(c.Path, "hd/") && !hasPath(p.Files, "hd") {
 			p.Files = append(p.Files, PFile{Path: "hd", Kind: "dir", Mode: 0o755})
 		}
-		if c.Path == "hd/h-leak" && !hasPath(p.Files, "hd/h-top") {
+		if (c.Path == "hd/h-leak" || c.Path == "hd/h-tmp-via") && !hasPath(p.Files, "hd/h-top") {
 			// a valid link to the package's own root, through which the other one climbs out
 			p.Files = append(p.Files, PFile{Path: "hd/h-top", Kind: "link", Target: ".."})
 		}
